@@ -1,94 +1,27 @@
-import Driver.Util
+import Driver.WsWriteSpec
 import Driver.WsDecode
-import Sonic.Spec.WsWire
 import Sonic.Model.WsWritePath
 
-/-! Trace acceptor for the harness component `wswrite` (C16). -/
+/-! Model acceptor for the harness component `wswrite` (C16): the write-path model follows the trace; the wire monitor
+and the script loop are those of `Driver/WsWriteSpec.lean`. -/
 namespace Driver.WsWrite
-open Sonic.Model.WsWritePath Sonic.Model.WsBuf Driver.WsDecode
-open Sonic.Spec.WsWire (Req Res)
+open Sonic.Model.WsWritePath Sonic.Model.WsBuf Driver.WsDecodeSpec Driver.WsWriteSpec
 
-/-- `@n:seed` payloads of the harness: byte i = (i*7 + seed + i/251) % 256. -/
-def payload? (s : String) : Option (List UInt8) :=
-  if s.startsWith "@" then
-    match (s.drop 1).toString.splitOn ":" with
-    | [n, seed] => do
-      let n ← n.toNat?
-      let seed ← seed.toNat?
-      pure ((List.range n).map fun i => UInt8.ofNat ((i * 7 + seed + i / 251) % 256))
-    | _ => none
-  else unhex s
+def toModelOp (keys : List (List UInt8)) (flen : Nat) : WsWriteSpec.SOp → Option WOp
+  | .new _ => none
+  | .plan l => some (.plan l)
+  | .defer b => some (.defer b)
+  | .write a oc p => some (.write a (UInt8.ofNat oc) p keys)
+  | .frame a oc fin p => some (.frame a (UInt8.ofNat oc) fin p flen keys)
+  | .flush a => some (.flush a)
+  | .close a code r => some (.close a code r keys)
+  | .pump => some .pump
 
-inductive POp where
-  | new (max : Int)
-  | op (w : Option (List (List UInt8)) → Nat → Option WOp)   -- given the keys and flen of the environment
-
-def opcodeOf (t : String) : Option UInt8 := if t = "text" then some 1 else if t = "binary" then some 2 else none
-
-def parseOp : List String → Option POp
-  | ["new", m] => (int? m).map .new
-  | "plan" :: l => do
-      let l ← l.mapM (·.toNat?)
-      pure (.op fun _ _ => some (.plan l))
-  | ["defer", b] => do let b ← bool? b; pure (.op fun _ _ => some (.defer b))
-  | [w, t, p] =>
-      if w = "write" ∨ w = "awrite" then do
-        let oc ← opcodeOf t
-        let p ← payload? p
-        pure (.op fun keys _ => keys.map fun k => .write (w = "awrite") oc p k)
-      else if w = "close" ∨ w = "aclose" then do
-        let code ← t.toNat?
-        let r ← unhex p
-        pure (.op fun keys _ => keys.map fun k => .close (w = "aclose") code r k)
-      else none
-  | [w, oc, fin, p] =>
-      if w = "frame" ∨ w = "aframe" then do
-        let oc ← oc.toNat?
-        let fin ← bool? fin
-        let p ← if p = "none" then some none else (payload? p).map some
-        pure (.op fun keys flen => keys.map fun k => .frame (w = "aframe") (UInt8.ofNat oc) fin p flen k)
-      else none
-  | ["flush"] => some (.op fun _ _ => some (.flush false))
-  | ["aflush"] => some (.op fun _ _ => some (.flush true))
-  | ["pump"] => some (.op fun _ _ => some .pump)
-  | _ => none
-
-def err? (s : String) : Option Err :=
-  if s = "nil" then some .nil else if s = "toobig" then some .tooBig else if s = "cancelled" then some .cancelled
-  else if s = "eof" then some .eof else none
-
-def showErr : Err → String
-  | .nil => "nil" | .tooBig => "toobig" | .cancelled => "cancelled" | .eof => "eof"
-
-structure Seen where
-  res : Option Err
-  cbs : List (Nat × Err)
-  wire : List UInt8
-  segs : List Nat
-  pending : Nat
-  dst : Nat
-  deriving DecidableEq
-
-def parseCbs (s : String) : Option (List (Nat × Err)) :=
-  if s = "-" then some [] else
-  (s.splitOn ",").mapM fun e => match e.splitOn ":" with
-    | [i, er] => do pure (← i.toNat?, ← err? er)
-    | _ => none
-
-def parseSegs (s : String) : Option (List Nat) :=
-  if s = "-" then some [] else (s.splitOn ",").mapM (·.toNat?)
-
-def parseSeen : List String → Option Seen
-  | [res, "cbs", cbs, "wire", w, "segs", sg, "pending", p, "dst", d] => do
-      let r ← if res = "-" then some none else (err? res).map some
-      pure { res := r, cbs := ← parseCbs cbs, wire := ← unhex w, segs := ← parseSegs sg, pending := ← p.toNat?, dst := ← d.toNat? }
-  | _ => none
-
-def showSeen (o : Seen) : String :=
-  s!"{match o.res with | none => "-" | some e => showErr e} cbs {o.cbs.map fun c => s!"{c.1}:{showErr c.2}"} wire {hex (o.wire.take 24)}({o.wire.length}) segs {o.segs} pending {o.pending} dst {o.dst}"
+def toEName : Err → EName
+  | .nil => .nil | .tooBig => .tooBig | .cancelled => .cancelled | .eof => .eof
 
 def modelSeen (s : WS) (o : Sonic.Model.WsWritePath.Out) : Seen :=
-  { res := o.res, cbs := o.cbs, wire := o.wire, segs := o.segs,
+  { res := o.res.map toEName, cbs := o.cbs.map fun c => (c.1, toEName c.2), wire := o.wire, segs := o.segs,
     pending := s.pending.length, dst := match s.inflight with | some w => w.bytes.length | none => 0 }
 
 def tagsOf (op : WOp) (s s' : WS) (o : Sonic.Model.WsWritePath.Out) : List String :=
@@ -96,7 +29,7 @@ def tagsOf (op : WOp) (s s' : WS) (o : Sonic.Model.WsWritePath.Out) : List Strin
     | .write a _ p _ => [if a then "awrite" else "write"] ++ (if p.length = 0 then ["empty-payload"] else if p.length ≤ 125 then ["len7"] else if p.length ≤ 65535 then ["len16"] else ["len64"])
         ++ (if (p.length : Int) > s.max then ["above-max"] else []) ++ (if (p.length : Int) = s.max then ["len=max"] else [])
     | .frame a _ _ p flen _ => [if a then "aframe" else "frame"] ++ (match p with | none => ["no-setpayload"] ++ (if flen > 14 then ["stale-pooled-length"] else []) | some b => if b.length = 0 then ["empty-payload"] else [])
-        ++ (if flen > 14 then ["pooled-reuse"] else [])
+        ++ (if flen > 14 then ["pooled-reuse"] else []) ++ (if flen < 14 then ["pooled-shrunk"] else [])
     | .close _ _ _ _ => ["close"]
     | .flush a => if a then ["aflush"] else []
     | .pump => if s.inflight.isSome then ["pump-progress"] else []
@@ -108,84 +41,23 @@ def tagsOf (op : WOp) (s s' : WS) (o : Sonic.Model.WsWritePath.Out) : List Strin
   ++ (if s'.inflight.isSome then ["in-flight"] else [])
   ++ (if o.cbs.length > 1 then ["waiters-run"] else [])
 
-/-- The monitor's view of an operation. -/
-def specOp (id : Nat) : WOp → Sonic.Spec.WsWire.Op
-  | .write _ oc p _ => .submit id true { fin := true, opcode := oc.toNat % 16, payload := p }
-  | .frame _ oc fin p _ _ => .submit id false { fin := fin, opcode := oc.toNat % 16, payload := p.getD [] }
-  | .close _ code reason _ => .submit id false { fin := true, opcode := 8, payload := Sonic.Spec.WsFrame.beBytes 2 (code % 65536) ++ reason }
-  | _ => .other id
+def hookStep (ms : WS) (id : Nat) (sop : WsWriteSpec.SOp) (keys : List (List UInt8)) (flen : Nat) (seen : Seen) (i : Nat) (res : Driver.Result) :
+    Option WS × Driver.Result :=
+  match toModelOp keys flen sop with
+  | none => (some ms, res)
+  | some op =>
+    match step ms id op with
+    | .error .env =>
+      (none, { res with envBad := res.envBad <|> some (i, s!"the masking keys drawn ({keys.length}) are not what the model expects") })
+    | .error e =>
+      (none, { res with modelDiff := res.modelDiff <|> some (i, s!"impl=[{showSeen seen}] model=[{Driver.WsDecode.showPanic e}]") })
+    | .ok none =>
+      (none, { res with envBad := res.envBad <|> some (i, "the script leaves the modelled usage (blocking call during an asynchronous flush, or a transport that never accepts a byte)") })
+    | .ok (some (ms', o)) =>
+      let mo := modelSeen ms' o
+      if mo ≠ seen then (none, { res with modelDiff := res.modelDiff <|> some (i, s!"impl=[{showSeen seen}] model=[{showSeen mo}]") })
+      else (some ms', { res with tags := (tagsOf op ms ms' o).foldl Driver.addTag res.tags })
 
-def specObs (o : Seen) : Sonic.Spec.WsWire.Obs :=
-  { res := match o.res with | none => .none | some .nil => .ok | some .tooBig => .tooBig | some _ => .refused,
-    done := o.cbs.map fun c => (c.1, decide (c.2 = .nil)), wire := o.wire }
-
-def checkWith (withModel : Bool) (sc : Driver.Script) : Driver.Result := Id.run do
-  let mut res : Driver.Result := {}
-  let mut m : Option WS := none
-  let mut s : Option Sonic.Spec.WsWire.S := none
-  let mut pending : Option POp := none
-  let mut keys : List (List UInt8) := []
-  let mut flen : Nat := 14
-  let mut i := 0
-  let mut id := 0    -- index of the operation within the script (0-based, as the harness numbers callbacks)
-  for ln in sc.lines do
-    i := i + 1
-    if ln.kind == '!' then
-      keys := []; flen := 14
-      match parseOp ln.toks with
-      | some op => pending := some op; res := { res with ops := res.ops + 1 }
-      | none => pending := none; res := { res with envBad := res.envBad <|> some (i, s!"unparsable operation: {ln.raw.take 80}") }
-    else if ln.kind == '?' then
-      match ln.toks with
-      | ["key", k] => keys := keys ++ [(unhex k).getD []]
-      | ["flen", n] => flen := n.toNat?.getD 14
-      | _ => res := { res with envBad := res.envBad <|> some (i, s!"unknown environment line: {ln.raw.take 80}") }
-    else if ln.kind == '<' then
-      let myId := id
-      id := id + 1
-      match pending with
-      | none => pure ()
-      | some (.new max) =>
-        pending := none
-        m := if withModel then some (WS.init max) else none
-        s := some (Sonic.Spec.WsWire.init max)
-      | some (.op mk) =>
-        pending := none
-        if ln.toks == ["panic"] then
-          res := { res with specFail := res.specFail <|> some (i, "key=wswrite.panic the call panicked") }
-          m := none; s := none
-        else
-        match mk (some keys) flen, parseSeen ln.toks with
-        | some op, some seen =>
-          if let some ms := m then
-            match step ms myId op with
-            | .error .env =>
-              res := { res with envBad := res.envBad <|> some (i, s!"the number of masking keys drawn ({keys.length}) is not what the model expects") }
-              m := none
-            | .error e =>
-              res := { res with modelDiff := res.modelDiff <|> some (i, s!"impl=[{showSeen seen}] model=[{showPanic e}]") }
-              m := none
-            | .ok none =>
-              res := { res with envBad := res.envBad <|> some (i, "the script leaves the modelled usage (blocking call during an asynchronous flush, or a transport that never accepts a byte)") }
-              m := none
-            | .ok (some (ms', o)) =>
-              let mo := modelSeen ms' o
-              if mo ≠ seen then
-                res := { res with modelDiff := res.modelDiff <|> some (i, s!"impl=[{showSeen seen}] model=[{showSeen mo}]") }
-                m := none
-              else
-                m := some ms'
-                res := { res with tags := (tagsOf op ms ms' o).foldl Driver.addTag res.tags }
-          if let some st := s then
-            match Sonic.Spec.WsWire.step st (specOp myId op) (specObs seen) with
-            | .ok st' => s := some st'
-            | .error d =>
-              res := { res with specFail := some (i, s!"{d}; op=[{ln.raw.take 0}{(sc.lines.toList.filter (·.kind == '!')).getD myId ln |>.raw.take 60}] obs=[{showSeen seen}]") }
-              s := none
-        | _, _ => res := { res with envBad := res.envBad <|> some (i, s!"unparsable result line: {ln.raw.take 80}") }
-  return res
-
-def check (sc : Driver.Script) : Driver.Result := checkWith true sc
-def checkSpec (sc : Driver.Script) : Driver.Result := checkWith false sc
+def check (sc : Driver.Script) : Driver.Result := checkWith (some { init := WS.init, step := hookStep }) sc
 
 end Driver.WsWrite
